@@ -32,14 +32,14 @@ type retained struct {
 }
 
 type taskState struct {
-	id   int
-	curOp int
+	id     int
+	curOp  int
 	curOpP *Op
-	E    []*secp.Element
-	S    []*secp.Scalar
-	ME   []model.Point
-	MS   []*big.Int
-	rets []retained
+	E      []*secp.Element
+	S      []*secp.Scalar
+	ME     []model.Point
+	MS     []*big.Int
+	rets   []retained
 	// entropy reads attributed to this task, not yet consumed by the model
 	rdFrom int
 	digest []uint64
@@ -47,31 +47,33 @@ type taskState struct {
 
 // Env executes one Run.
 type Env struct {
-	R       *Run
-	Ar      *arena.Arena
-	G       *Globals
-	Dev     *entropy.Device
-	Sch     *sched.S
-	St      *Stats
-	Sites   *SiteTable
-	backs   [][]byte
-	viol    *Violation
-	abort   bool
-	sharedE []*secp.Element
-	sharedS []*secp.Scalar
-	shME    []model.Point
-	shMS    []*big.Int
-	shRawE  [][]byte
-	shRawS  [][]byte
-	solo    [][]uint64
-	phase   string
-	curTask *taskState
-	curOp   int
-	curKind string
-	incon   error
-	heapIn  []MemRange
-	all     []*taskState
+	R        *Run
+	Ar       *arena.Arena
+	G        *Globals
+	Dev      *entropy.Device
+	Sch      *sched.S
+	St       *Stats
+	Sites    *SiteTable
+	backs    [][]byte
+	viol     *Violation
+	abort    bool
+	sharedE  []*secp.Element
+	sharedS  []*secp.Scalar
+	shME     []model.Point
+	shMS     []*big.Int
+	shRawE   [][]byte
+	shRawS   [][]byte
+	solo     [][]uint64
+	phase    string
+	curTask  *taskState
+	curOp    int
+	curKind  string
+	incon    error
+	heapIn   []MemRange
+	all      []*taskState
+	rq       map[int][][]byte // per task: candidate queues of delivered, unused entropy
 	protect0 uint64
+	poisoned bool
 }
 
 var elemSize = unsafe.Sizeof(secp.Element{})
@@ -183,8 +185,21 @@ type implOut struct {
 	ret      int
 }
 
+// SiteReturn is the pseudo yield site the harness passes right after a
+// library call returns (so that a task released from a library primitive
+// waits for the token before it touches harness state).
+const SiteReturn = 0xfffffffe
+
+// yp is a harness-side yield point.
+func (x *Env) yp() {
+	if x.Sch != nil && x.Sch.Active() {
+		x.Sch.Hook(SiteReturn)
+	}
+}
+
 // call runs f under recover and classifies a panic.
 func (x *Env) call(f func() error) (o implOut) {
+	defer x.yp()
 	defer func() {
 		if r := recover(); r != nil {
 			if sc, ok := r.(sched.ErrStepCap); ok {
@@ -487,29 +502,13 @@ func (x *Env) step(ts *taskState, oi int, op *Op) {
 		return
 	}
 
-	// ---- Random: the model is a function of the bytes this task received
+	// ---- Random: judged against the bytes the entropy device delivered
 	if op.K == "s.random" {
-		mo = x.modelRandom(ts, rdStart)
-		mo.eqWant = -1
+		x.afterRandom(ts, oi, op, rdStart, out)
+		return
 	}
 
-	// ---- outcome class
-	if mo.wrongStop {
-		how := "returned"
-		if out.panicked {
-			how = fmt.Sprintf("panicked (%v)", out.pval)
-		}
-		x.fail(ts, oi, op, "M-entropy", "stop", "Random "+how+" although the bytes it was served contain neither an acceptable 32-byte block nor a source failure")
-		return
-	}
 	switch {
-	case mo.either && out.panicked:
-		x.St.PanicOps++
-		x.St.Probes["random_panic_on_error_with_block_completing_bytes"]++
-		ts.MS[r] = nil // receiver unspecified after a panic in Random
-		x.resyncScalar(ts, oi, op, r)
-		x.observe(ts, oi, op, -1, -1)
-		return
 	case out.panicked && !mo.panics:
 		x.fail(ts, oi, op, "M-ref", "panic", fmt.Sprintf("call panicked (%v) where the model returns a value", out.pval))
 		return
@@ -518,10 +517,6 @@ func (x *Env) step(ts *taskState, oi int, op *Op) {
 		return
 	case out.panicked && mo.panics:
 		x.St.PanicOps++
-		if op.K == "s.random" {
-			ts.MS[r] = nil
-			x.resyncScalar(ts, oi, op, r)
-		}
 		x.observe(ts, oi, op, -1, -1)
 		return
 	}
@@ -617,6 +612,7 @@ func (x *Env) sharedIntact(ts *taskState, oi int, op *Op) bool {
 // Random), requiring only that it is canonical.
 func (x *Env) resyncScalar(ts *taskState, oi int, op *Op, r int) {
 	enc := ts.S[r].Encode()
+	x.yp()
 	v := new(big.Int).SetBytes(enc)
 	if len(enc) != 32 || v.Cmp(model.N) >= 0 {
 		x.fail(ts, oi, op, "M-ref", "noncanonical", fmt.Sprintf("scalar encodes to non-canonical %x", enc))
@@ -626,63 +622,182 @@ func (x *Env) resyncScalar(ts *taskState, oi int, op *Op, r int) {
 	x.St.Probes["scalar_resync_unspecified"]++
 }
 
-// modelRandom evaluates the specification of Random on the reads served to
-// this task since rdStart: the bytes delivered, cut into 32-byte blocks; the
-// result is the first block whose value mod n is non-zero. A source error that
-// arrives while a block is incomplete must surface as a panic. An error that
-// arrives together with the bytes completing a block may be acted upon
-// (panic) or not (io.ReadFull reports success then): both are in spec.
-func (x *Env) modelRandom(ts *taskState, rdStart int) mOut {
-	var block []byte
-	soft := false
+// scanBlocks walks q in 32-byte blocks and returns the first block whose value
+// mod n is non-zero, reduced, together with the number of bytes consumed up to
+// and including it.
+func (x *Env) scanBlocks(q []byte, count bool) (v *big.Int, used int, ok bool) {
+	for used+32 <= len(q) {
+		b := new(big.Int).SetBytes(q[used : used+32])
+		used += 32
+		red := new(big.Int).Mod(b, model.N)
+		if red.Sign() != 0 {
+			if count && b.Cmp(model.N) > 0 {
+				x.St.Probes["random_reduced_block_gt_n"]++
+			}
+			return red, used, true
+		}
+		if count {
+			if b.Sign() == 0 {
+				x.St.Probes["random_retry_zero_block"]++
+			} else {
+				x.St.Probes["random_retry_block_eq_n"]++
+			}
+		}
+	}
+	return nil, used, false
+}
+
+// afterRandom judges one call of Random against the specification, stated over
+// the bytes the source delivered:
+//
+//   - every value returned is the first 32-byte block with non-zero residue of
+//     the bytes delivered and not yet used (to this task; or, for an
+//     implementation that shares a buffer between callers, to another task),
+//     reduced mod n, and using it consumes it;
+//   - if the source reports an error at a moment when no such block is
+//     available, the call must panic - except for an error delivered together
+//     with the bytes that complete a 32-byte block, which a block-wise reader
+//     cannot see; it may panic on any error; it must not panic when the source
+//     reported none;
+//   - after a panic, complete blocks that were delivered but not used may be
+//     kept or dropped (both are followed); the partial block that was being
+//     assembled when the source failed is dropped: a later value must not be
+//     built from the remains of a failed draw.
+func (x *Env) afterRandom(ts *taskState, oi int, op *Op, rdStart int, out implOut) {
+	r := op.R
+	if x.rq == nil {
+		x.rq = map[int][][]byte{}
+	}
+	alts := x.rq[ts.id]
+	if len(alts) == 0 {
+		alts = [][]byte{nil}
+	}
+	// reads served to this task during the call
+	type errAt struct {
+		off  int
+		n    int
+		name string
+	}
+	var delivered []byte
+	var errs []errAt
 	for _, rec := range x.Dev.Log[rdStart:] {
 		if rec.Task != ts.id {
 			continue
 		}
 		x.St.EntropyRd++
-		block = append(block, rec.Data...)
-		completed := false
-		for len(block) >= 32 {
-			completed = true
-			v := new(big.Int).SetBytes(block[:32])
-			block = block[32:]
-			switch {
-			case v.Sign() == 0:
-				x.St.Probes["random_retry_zero_block"]++
-			case v.Cmp(model.N) == 0:
-				x.St.Probes["random_retry_block_eq_n"]++
-			}
-			red := new(big.Int).Mod(v, model.N)
-			if red.Sign() != 0 {
-				if v.Cmp(model.N) > 0 {
-					x.St.Probes["random_reduced_block_gt_n"]++
+		if rec.Want > 32 {
+			x.St.Probes["random_read_request_larger_than_one_block"]++
+		}
+		delivered = append(delivered, rec.Data...)
+		if rec.Err != nil {
+			errs = append(errs, errAt{len(delivered), rec.N, rec.Err.Error()})
+		}
+	}
+	var got *big.Int
+	if !out.panicked {
+		enc := ts.S[r].Encode()
+		x.yp()
+		got = new(big.Int).SetBytes(enc)
+		if len(enc) != 32 || got.Cmp(model.N) >= 0 || got.Sign() == 0 {
+			x.fail(ts, oi, op, "M-entropy", "range", fmt.Sprintf("Random left the non-canonical or zero value %x", enc))
+			return
+		}
+	}
+	var next [][]byte
+	why := ""
+	for ai, q := range alts {
+		full := append(append([]byte(nil), q...), delivered...)
+		hard := false
+		for _, e := range errs {
+			// an error delivered together with the bytes that complete a block is
+			// invisible to a block-wise reader (io.ReadFull reports success):
+			// acting on it or not are both in spec
+			soft := e.n > 0 && (len(q)+e.off)%32 == 0
+			if _, _, ok := x.scanBlocks(full[:len(q)+e.off], false); !ok && !soft {
+				hard = true
+				if ai == 0 {
+					if (len(q)+e.off)%32 != 0 {
+						x.St.Probes["random_error_mid_block"]++
+					} else {
+						x.St.Probes["random_error_at_block_boundary"]++
+					}
 				}
-				if len(block) != 0 {
-					// more bytes than one block were requested in one read: the
-					// block structure assumed by the specification does not apply
-					return mOut{wrongStop: true}
-				}
-				return mOut{setS: red, either: soft || rec.Err != nil}
+			} else if ai == 0 {
+				x.St.Probes["random_error_with_block_completing_bytes"]++
 			}
 		}
-		if rec.Err != nil {
-			if completed && len(block) == 0 {
-				soft = true
-				x.St.Probes["random_error_with_block_completing_bytes"]++
+		if out.panicked {
+			if len(errs) == 0 {
+				if why == "" {
+					why = fmt.Sprintf("Random panicked (%v) although the source reported no failure", out.pval)
+				}
 				continue
 			}
-			if len(block) > 0 {
-				x.St.Probes["random_error_mid_block"]++
-			} else {
-				x.St.Probes["random_error_at_block_boundary"]++
+			// after a panic: complete blocks delivered but not used may be kept
+			// (a buffering implementation) or dropped; the bytes of the block
+			// that was being assembled when the source failed must not survive
+			next = append(next, full[:len(full)-len(full)%32], nil)
+			continue
+		}
+		if hard {
+			if why == "" {
+				why = "Random returned a value although the source failed at a moment when no complete acceptable block had been delivered (a failing source must cause a panic)"
 			}
-			return mOut{panics: true}
+			continue
+		}
+		v, used, ok := x.scanBlocks(full, ai == 0)
+		if !ok {
+			if why == "" {
+				why = fmt.Sprintf("Random returned %x although the bytes delivered to it contain no complete 32-byte block with non-zero residue", got)
+			}
+			continue
+		}
+		if v.Cmp(got) != 0 {
+			if why == "" {
+				why = fmt.Sprintf("Random returned %x; the first delivered 32-byte block with non-zero residue reduces to %x", got, v)
+			}
+			continue
+		}
+		next = append(next, full[used:])
+	}
+	if len(next) == 0 && !out.panicked && len(errs) == 0 {
+		// an implementation that shares buffered entropy between callers may
+		// serve this call from bytes delivered to another task
+	search:
+		for tid, oalts := range x.rq {
+			if tid == ts.id {
+				continue
+			}
+			for ai, q := range oalts {
+				if v, used, ok := x.scanBlocks(q, false); ok && v.Cmp(got) == 0 {
+					oalts[ai] = q[used:]
+					x.rq[tid] = [][]byte{oalts[ai]}
+					next = alts
+					x.St.Probes["random_served_from_bytes_delivered_to_another_task"]++
+					break search
+				}
+			}
 		}
 	}
-	if soft {
-		return mOut{panics: true}
+	if len(next) == 0 {
+		x.fail(ts, oi, op, "M-entropy", "value", why)
+		return
 	}
-	return mOut{wrongStop: true}
+	// keep the candidate set small and deterministic
+	if len(next) > 4 {
+		next = next[:4]
+	}
+	x.rq[ts.id] = next
+	if out.panicked {
+		x.St.PanicOps++
+		ts.MS[r] = nil // receiver unspecified after a panic
+		x.resyncScalar(ts, oi, op, r)
+		x.observe(ts, oi, op, -1, -1)
+		return
+	}
+	ts.MS[r] = got
+	x.St.StateOps++
+	x.observe(ts, oi, op, r, 0)
 }
 
 func (x *Env) scribble(ts *taskState, oi int, op *Op) {
@@ -732,6 +847,7 @@ func (x *Env) observe(ts *taskState, oi int, op *Op, recv int, recvIsE int) {
 		}
 		x.St.Observes++
 		got := ts.E[i].Encode()
+		x.yp()
 		want := model.EncodeCompressed(ts.ME[i])
 		mixb(got)
 		if !bytes.Equal(got, want) {
@@ -749,7 +865,9 @@ func (x *Env) observe(ts *taskState, oi int, op *Op, recv int, recvIsE int) {
 				return
 			}
 		}
-		if id := ts.E[i].IsIdentity(); id != ts.ME[i].IsInf() {
+		id := ts.E[i].IsIdentity()
+		x.yp()
+		if id != ts.ME[i].IsInf() {
 			x.fail(ts, oi, op, "M-ref", "isidentity", fmt.Sprintf("element variable %d: IsIdentity = %v, model says %v", i, id, ts.ME[i].IsInf()))
 			return
 		}
@@ -766,6 +884,7 @@ func (x *Env) observe(ts *taskState, oi int, op *Op, recv int, recvIsE int) {
 		}
 		x.St.Observes++
 		got := ts.S[i].Encode()
+		x.yp()
 		want := model.SEncode(ts.MS[i])
 		mixb(got)
 		if !bytes.Equal(got, want) {
@@ -781,7 +900,9 @@ func (x *Env) observe(ts *taskState, oi int, op *Op, recv int, recvIsE int) {
 				return
 			}
 		}
-		if z := ts.S[i].IsZero(); z != (ts.MS[i].Sign() == 0) {
+		z := ts.S[i].IsZero()
+		x.yp()
+		if z != (ts.MS[i].Sign() == 0) {
 			x.fail(ts, oi, op, "M-ref", "iszero", fmt.Sprintf("scalar variable %d: IsZero = %v, model says %v", i, z, ts.MS[i].Sign() == 0))
 			return
 		}
@@ -790,7 +911,9 @@ func (x *Env) observe(ts *taskState, oi int, op *Op, recv int, recvIsE int) {
 		for i := range ts.E {
 			for j := range ts.E {
 				want := b2i(ts.ME[i].Eq(ts.ME[j]))
-				if got := ts.E[i].Equal(ts.E[j]); got != want {
+				got := ts.E[i].Equal(ts.E[j])
+				x.yp()
+				if got != want {
 					x.fail(ts, oi, op, "M-ref", "equal", fmt.Sprintf("element %d Equal element %d = %d, model says %d", i, j, got, want))
 					return
 				}
@@ -805,7 +928,9 @@ func (x *Env) observe(ts *taskState, oi int, op *Op, recv int, recvIsE int) {
 					continue
 				}
 				want := b2i(ts.MS[i].Cmp(ts.MS[j]) == 0)
-				if got := ts.S[i].Equal(ts.S[j]); got != want {
+				got := ts.S[i].Equal(ts.S[j])
+				x.yp()
+				if got != want {
 					x.fail(ts, oi, op, "M-ref", "equal", fmt.Sprintf("scalar %d Equal scalar %d = %d, model says %d", i, j, got, want))
 					return
 				}
@@ -817,8 +942,9 @@ func (x *Env) observe(ts *taskState, oi int, op *Op, recv int, recvIsE int) {
 			return
 		}
 	}
-	// global state
-	if name, ok := x.G.CheckDeep(); !ok {
+	// global state: "the package keeps no mutable global state" is C16's
+	// statement only; the other properties do not forbid (say) a cache
+	if name, ok := x.G.CheckDeep(); !ok && x.R.Prop == "C16" {
 		x.fail(ts, oi, op, "M-glob", name, fmt.Sprintf("package-level variable %s changed after initialisation", name))
 		return
 	}
@@ -837,6 +963,7 @@ func (x *Env) returns(ts *taskState, oi int, op *Op, r int, isE bool) bool {
 	if isE {
 		e, m := ts.E[r], ts.ME[r]
 		u := e.EncodeUncompressed()
+		x.yp()
 		if !m.IsInf() && !bytes.Equal(u, model.EncodeUncompressed(m)) {
 			x.fail(ts, oi, op, "M-ref", "encodeuncompressed", fmt.Sprintf("EncodeUncompressed = %s, model says %s", hexOf(u), hexOf(model.EncodeUncompressed(m))))
 			return true
@@ -845,6 +972,7 @@ func (x *Env) returns(ts *taskState, oi int, op *Op, r int, isE bool) bool {
 			return true
 		}
 		xc := e.XCoordinate()
+		x.yp()
 		if !m.IsInf() && !bytes.Equal(xc, model.EncodeCompressed(m)[1:]) {
 			x.fail(ts, oi, op, "M-ref", "xcoordinate", fmt.Sprintf("XCoordinate = %x", xc))
 			return true
@@ -853,6 +981,7 @@ func (x *Env) returns(ts *taskState, oi int, op *Op, r int, isE bool) bool {
 			return true
 		}
 		mb, err := e.MarshalBinary()
+		x.yp()
 		if err != nil || !bytes.Equal(mb, model.EncodeCompressed(m)) {
 			x.fail(ts, oi, op, "M-ref", "marshalbinary", fmt.Sprintf("MarshalBinary = %x, %v", mb, err))
 			return true
@@ -863,6 +992,7 @@ func (x *Env) returns(ts *taskState, oi int, op *Op, r int, isE bool) bool {
 	} else if ts.MS[r] != nil {
 		s, m := ts.S[r], ts.MS[r]
 		mb, err := s.MarshalBinary()
+		x.yp()
 		if err != nil || !bytes.Equal(mb, model.SEncode(m)) {
 			x.fail(ts, oi, op, "M-ref", "marshalbinary", fmt.Sprintf("MarshalBinary = %x, %v", mb, err))
 			return true
@@ -872,6 +1002,7 @@ func (x *Env) returns(ts *taskState, oi int, op *Op, r int, isE bool) bool {
 		}
 	}
 	o := secp.Order()
+	x.yp()
 	if !bytes.Equal(o, model.SEncode(model.N)[:]) {
 		x.fail(ts, oi, op, "M-ref", "order", fmt.Sprintf("Order() = %x", o))
 		return true
@@ -961,6 +1092,9 @@ type Result struct {
 	Violation *Violation
 	Stats     *Stats
 	Incon     error
+	// Poisoned: goroutines of this run are stuck inside the library (deadlock);
+	// the process must not execute further runs.
+	Poisoned bool
 }
 
 // Exec executes a run. globals must have been captured at process start.
@@ -1013,6 +1147,7 @@ func Exec(run *Run, ar *arena.Arena, g *Globals, sites *SiteTable) (res Result) 
 		run.Entropy.Stream = s
 	}
 	newDev := func() {
+		x.rq = nil
 		x.Dev = entropy.NewDevice(run.Entropy)
 		x.Dev.Cur = func() int {
 			if x.Sch != nil && x.Sch.Active() {
@@ -1034,7 +1169,7 @@ func Exec(run *Run, ar *arena.Arena, g *Globals, sites *SiteTable) (res Result) 
 	defer func() { crand.Reader = savedReader }()
 	newDev()
 
-	if name, ok := g.CheckDeep(); !ok {
+	if name, ok := g.CheckDeep(); !ok && run.Prop == "C16" {
 		return Result{Incon: Inconclusive{"global " + name + " already differs from the start-up snapshot"}, Stats: x.St}
 	}
 
@@ -1157,10 +1292,13 @@ func Exec(run *Run, ar *arena.Arena, g *Globals, sites *SiteTable) (res Result) 
 		s.UseList = true
 		s.Replay = run.Switches
 	}
+	if sites != nil {
+		s.MayBlock = sites.MayBlock
+	}
 	x.Sch = s
 	states := make([]*taskState, len(run.Tasks))
 	s.OnStep = func(site uint32) {
-		if name, ok := g.CheckRaw(); !ok && x.viol == nil {
+		if name, ok := g.CheckRaw(); !ok && x.viol == nil && run.Prop == "C16" {
 			where := ""
 			if sites != nil {
 				where = " at " + sites.Describe(site)
@@ -1187,8 +1325,20 @@ func Exec(run *Run, ar *arena.Arena, g *Globals, sites *SiteTable) (res Result) 
 	x.St.InOpSw = s.InOpSw
 	x.St.TraceHash = s.Hash
 	run.Switches = s.Switches
-	if s.Aborted != nil {
+	if s.Deadlock != nil {
+		x.poisoned = true
+		x.St.Probes["library_deadlock"]++
+		if run.Prop == "C16" && x.viol == nil {
+			ts := states[s.Deadlock.Blocked[0]%len(states)]
+			x.fail(ts, ts.curOp, ts.curOpP, "M-live", "deadlock", "concurrent calls never return: "+s.Deadlock.Error())
+		} else if x.viol == nil {
+			x.incon = Inconclusive{s.Deadlock.Error()}
+		}
+	} else if s.Aborted != nil {
 		x.incon = Inconclusive{s.Aborted.Error()}
+	}
+	if s.BlockedN > 0 {
+		x.St.Probes["task_blocked_inside_library"] += s.BlockedN
 	}
 	if s.TaskPanic != nil && x.incon == nil {
 		x.incon = Inconclusive{fmt.Sprintf("task panicked outside an op: %v", s.TaskPanic)}
@@ -1241,9 +1391,9 @@ func (x *Env) finish() Result {
 	}
 	x.St.ObsHash = oh
 	if x.incon != nil {
-		return Result{Incon: x.incon, Stats: x.St}
+		return Result{Incon: x.incon, Stats: x.St, Poisoned: x.poisoned}
 	}
-	return Result{Violation: x.viol, Stats: x.St}
+	return Result{Violation: x.viol, Stats: x.St, Poisoned: x.poisoned}
 }
 
 var _ = io.EOF
